@@ -4,13 +4,20 @@ import json, os, re, sys
 V = os.path.dirname(os.path.dirname(os.path.abspath(__file__)))
 S = os.path.join(V, "seeded")
 rows = {}
+history = {}
 for line in open(os.path.join(S, "results.log")):
     m = re.match(r"(\S+) prop=(.*?) demo_clean=(\d+)(?: baseline=(\d+))? demo_seeded=(\d+) (.*)", line.strip())
     if not m:
         continue
     name, props, dc, bl, ds, rest = m.groups()
-    checks = dict(re.findall(r"check_(C\d+)=(\d)\(violations=(\d+)\)".replace("(C", "(C"), rest) and [(a, (int(b), int(c))) for a, b, c in re.findall(r"check_(C\d+)=(\d)\(violations=(\d+)\)", rest)])
-    rows[name] = dict(props=props.split(), demo_clean=int(dc), baseline=None if bl is None else int(bl), demo_seeded=int(ds), checks=checks)
+    checks = dict((a, (int(b), int(c))) for a, b, c in re.findall(r"check_(C\d+)=(\d)\(violations=(\d+)\)", rest))
+    row = dict(props=props.split(), demo_clean=int(dc), baseline=None if bl is None else int(bl), demo_seeded=int(ds), checks=checks)
+    history.setdefault(name, []).append(row)
+    prev = rows.get(name)
+    # keep the latest run; a run that included the baseline suite wins over later runs that skipped it only for the baseline field
+    if prev is not None and row["baseline"] is None:
+        row["baseline"] = prev["baseline"]
+    rows[name] = row
 out = ["| seed | origin | breaks | baseline still passes | demo: clean / seeded | reported by (quick tier) |", "|---|---|---|---|---|---|"]
 for name in sorted(os.listdir(S)):
     d = os.path.join(S, name)
@@ -35,11 +42,14 @@ for name in sorted(os.listdir(S)):
             "commands": ["tools/try_seed.sh %s seeded/%s/patch.diff seeded/%s/demo.py '%s'" % (name, name, name, " ".join(r["props"]))],
         },
         "checks": {p: {"exit": e, "violation_signatures": n} for p, (e, n) in r["checks"].items()},
+        "first_run_of_the_owning_check": ("reported" if history[name][0]["checks"].get(r["props"][0] if r["props"] else name[:3], (0, 0))[0] == 1
+                                          else "missed (the check was strengthened afterwards, see DESIGN.md section 7)"),
         "kept": kept,
     }
     json.dump(meta, open(os.path.join(d, "meta.json"), "w"), indent=1)
     rep = ", ".join("%s (%d signature%s)" % (p, n, "" if n == 1 else "s") for p, (e, n) in sorted(r["checks"].items()) if e == 1) or "**missed**"
+    first = "" if meta["first_run_of_the_owning_check"] == "reported" else " (missed at first)"
     out.append("| %s | %s | %s | %s | %d / %d | %s |" % (name, origin, meta["property_broken"], "yes" if r["baseline"] == 0 else ("n/a" if r["baseline"] is None else "NO"),
-                                                       r["demo_clean"], r["demo_seeded"], rep if kept else rep + " (not kept: demonstration does not discriminate)"))
+                                                       r["demo_clean"], r["demo_seeded"], (rep + first) if kept else rep + " (not kept: demonstration does not discriminate)"))
 open(os.path.join(S, "RESULTS.md"), "w").write("\n".join(out) + "\n")
 print("\n".join(out))
